@@ -729,6 +729,11 @@ class Interp:
                 return r
             fm = self.prog.find_method(obj.cls, name)
             if fm:
+                if "classmethod" in fm.decorators:
+                    # a classmethod reached through an instance receives the instance's class
+                    return self.call_function(fm.mod, fm.node, [ClassRef(obj.cls)] + list(args), kw, qn=fm.qn)
+                if "staticmethod" in fm.decorators:
+                    return self.call_function(fm.mod, fm.node, list(args), kw, qn=fm.qn)
                 return self.call(Closure(fm.node, {}, fm.mod, fm.qn), [obj] + list(args), kw)
             raise Undecided(f"GA method {name}")
         if isinstance(obj, Module):
